@@ -26,6 +26,13 @@ ZLIB_ASSUME = [
 ]
 
 PROPS = {
+    'C02': {
+        'tus': [EDU] + V2 + V1,
+        'functions': [P_ + 'zlib_compress'],
+        'level': 'proof',
+        'assumptions': [],
+        'explanation': 'under construction',
+    },
     'C20': {
         'tus': [E + 'engine.cpp'],
         'functions': [P_ + 'normalize_beatgrid', P_ + 'normalize_beatgrid@normal_form_is_fixed_point', P_ + 'normalize_beatgrid@any_start_index'],
